@@ -29,13 +29,13 @@ import faultfs
 
 CONFIG = {
     "id": "C17",
-    "rule": ("save cases: yaml-set {backup} x {YAML, JSON} x {stale .bak} x 5+3 documents; yaml-merge {--output, "
+    "rule": ("save cases: yaml-set {backup} x {YAML, JSON} x {stale .bak} x 7+3 documents (two of them with CRLF line ends / a byte-order mark: original BYTES); yaml-merge {--output, "
              "--overwrite, --overwrite --backup} x {YAML, JSON} x {1..3 output documents} x {stale .bak} x {target "
              "exists} x {output exists}; eyaml-rotate-keys {backup} x {file holds secrets or not} x {stale .bak} x 3 "
              "documents; each under no fault and under a fault at EVERY call position k (0..K, K past the end) x "
              "{raise before effect, raise mid effect} x {OSError, AssertionError, TypeError, ValueError, "
              "RecursionError, KeyboardInterrupt} (yaml-set; OSError / TypeError for the others).  yaml-set YAML: a "
-             "fault of every class at the dump x a second fault at every call of the restore path; 7 documents the "
+             "fault of every class at the dump x a second fault at every call of the restore path; 8 documents (one with CRLF line ends) the "
              "REAL dumper refuses (yaml-set -g a -T '!x' on int / float / bool / null / date scalars, --value=9 -T x) "
              "x {backup} x {stale} x {no fault, a fault at every call incl. the restore path}; 3 JSON targets json "
              "cannot serialise.  pre cases: 19 yaml-set and 15 yaml-merge failure causes x {backup} x {stale .bak} x "
@@ -98,6 +98,10 @@ SET_DOCS = [
     ("t.yaml", "---\nname: \"caf\u00e9 \u65e5\u672c\"\nitems: [1, 2, 3]\nnested: {x: {y: z}}\n", "nested.x.y", "w"),
     ("data.yml", "- one\n- two\n- {k: v}\n", "[1]", "TWO"),
     ("t.yaml", "long: >\n  folded text that\n  spans lines\nkey: v\n" + "".join("k%d: v%d\n" % (i, i) for i in range(40)), "key", "new"),
+    # CRLF line ends and a byte-order mark: "the original bytes" are bytes, not decoded text (seed C17_4 restored
+    # through a text-mode copy)
+    ("t.yaml", "a: 1\r\nb: 2\r\n# end\r\n", "a", "9"),
+    ("t.yaml", "\ufeffa: 1\nb: 2\n", "a", "9"),
 ]
 SET_JSON_DOCS = [
     ("t.json", '{"a": 1, "b": [1, 2, {"c": "d"}]}', "a", "9"),
@@ -115,6 +119,7 @@ SET_FAIL_DOCS = [
     ("t.yaml", "d: 2020-01-01\nk: v\n", ["-g", "d", "-T", "!x"]),
     ("data.yml", "a: old\nb: 2\n", ["-g", "a", "--value=9", "-T", "x"]),
     ("t.yaml", "l:\n  - 1\n  - two\n", ["-g", "l[0]", "-T", "!mytag"]),
+    ("t.yaml", "a: 1\r\nb: 2\r\n", ["-g", "a", "-T", "!x"]),             # CRLF file, refused dump, restore
 ]
 # JSON targets whose document json.dumps refuses (a complex mapping key)
 SET_FAIL_JSON_DOCS = [
